@@ -38,6 +38,7 @@ def run(tier, selftest=False, only=None):
     n = 400 if tier == "quick" else 6000
     cs = cases(rng, n)
     cs += [(m, st) for m, st in cases(rng, n // 8, max_cells=1)]          # make_dxdtf needs size-1 systems
+    rd_law.model_check(rep, cs, "C01")
     spec = rd_eval.evaluate("flaw", rd_law.spec_items(cs), rep)
     impl = rd_law.impl_values(cs)
     rd_law.compare(rep, cs, spec, impl, "rate-law")
